@@ -150,6 +150,11 @@ func (db *ContractDB) discharge(vc *VC, ob *Obligation, cfg *solveCfg) {
 			// later solvers are only consulted when the first was indefinite
 		}
 		st, out, d := runSolver(s, file, t, cfg.seed)
+		if st == "error" {
+			// a solver process that produced no verdict at all (killed, failed to
+			// start): transient, try once more before moving on
+			st, out, d = runSolver(s, file, t, cfg.seed)
+		}
 		total += d
 		if st == "unsat" || st == "sat" {
 			if ob.Status == "" || ob.Status == "unknown" || ob.Status == "timeout" || ob.Status == "error" {
@@ -168,11 +173,12 @@ func (db *ContractDB) discharge(vc *VC, ob *Obligation, cfg *solveCfg) {
 			}
 			continue
 		}
-		if ob.Status == "" {
+		if ob.Status == "" || (ob.Status == "error" && st != "error") {
+			// an indefinite answer (unknown / timeout) says more than a crashed solver
 			ob.Status = st
 			ob.Solver = s.Name
 			if st == "error" {
-				ob.Model = firstLines(out, 5)
+				ob.Model = "solver produced no verdict: " + firstLines(out, 5)
 			}
 		}
 	}
